@@ -520,17 +520,20 @@ func (m *Memberlist) UpdateNode(timeout time.Duration) error {
 		}
 	}
 
-	// Get the existing node
+	// Get the existing node. The record is written under nodeLock (by
+	// aliveNode, e.g. from a concurrent UpdateNode or a refutation), so its
+	// fields must be read while we hold the lock, not after.
 	m.nodeLock.RLock()
 	state := m.nodeMap[m.config.Name]
+	addr, port := state.Addr, state.Port
 	m.nodeLock.RUnlock()
 
 	// Format a new alive message
 	a := alive{
 		Incarnation: m.nextIncarnation(),
 		Node:        m.config.Name,
-		Addr:        state.Addr,
-		Port:        state.Port,
+		Addr:        addr,
+		Port:        port,
 		Meta:        meta,
 		Vsn:         m.config.BuildVsnArray(),
 	}
